@@ -48,3 +48,16 @@ Theorem C09_addressed_positions_distinct : forall index sh o i1 i2, valid index 
   Tensor.in_bounds o i1 -> Tensor.in_bounds o i2 -> np_source index sh i1 = np_source index sh i2 -> i1 = i2.
 Proof. exact np_source_inj. Qed.
 Print Assumptions C09_addressed_positions_distinct.
+
+(* ---- the index grid ------------------------------------------------------------------------------------------ *)
+From ND Require Import Ndx.NdIndex.
+(* the index grid behind ScatterND (and nonzero): as built from Range / Unsqueeze / Expand / Unsqueeze / Concat it is the
+   coordinate tensor grid[i_0..i_{r-1}, k] = i_k for every shape of rank >= 1, and its rows are the multi-indices *)
+Theorem C09_index_grid_is_the_coordinate_tensor : forall sh, sh <> [] -> ndindex_lowered sh = Done (coord_grid sh).
+Proof. exact ndindex_lowered_spec. Qed.
+Theorem C09_index_grid_rows_are_the_indices : forall sh idx, Tensor.in_bounds sh idx ->
+  map (fun k => get (coord_grid sh) (idx ++ [k]) 0%nat) (seq 0 (length sh)) = idx.
+Proof. exact grid_rows_are_the_indices. Qed.
+Print Assumptions C09_index_grid_is_the_coordinate_tensor.
+Example C09_ex_grid : ndindex_lowered [2; 2]%nat = Done {| shape := [2; 2; 2]%nat; data := [0; 0; 0; 1; 1; 0; 1; 1]%nat |}.
+Proof. reflexivity. Qed.
